@@ -55,6 +55,8 @@ theorem At.dictionary_key {path kdt vdt n md p idx vals index}
     (h : At path (.dictionary kdt vdt) n md (.dictionary p idx vals index)) : idx.path = path ++ ".key" := by
   obtain ⟨b0, h0, ht⟩ := h
   simp only [newDT] at h0
+  split at h0
+  case isFalse => simp [SaModel.ctx, SaModel.fail] at h0
   obtain ⟨kb, hkb, h0⟩ := (Build.bind_ok _ _ _).1 h0
   obtain ⟨vb, hvb, h0⟩ := (Build.bind_ok _ _ _).1 h0
   cases h0
